@@ -141,7 +141,17 @@ Vector == LET r == ParseFilter(Toks, Sch, 128) IN
   IF r.ok THEN [ev |-> "filter", sch |-> 1, max |-> 128, ts |-> Toks, ok |-> TRUE, ast |-> AstJson(r.node),
                 runs |-> Strict([n \in 1..Len(Ctxs) |-> [ctx |-> n, out |-> "ok", res |-> EvalFilter(r.node, Ctxs[n], Sch)]]), uses |-> <<>>]
   ELSE [ev |-> "filter", sch |-> 1, max |-> 128, ts |-> Toks, ok |-> FALSE]
-Emit == PrintT(<<"REPLAY", ToJson(Vector)>>)
+(* the index matrix is also read as value expressions: accepted iff the path is well typed and free of [*],   *)
+(* and an accepted one yields a value of its static type or an absence tagged with that type                  *)
+PathToks == <<Id(Fields[cas[2]].name)>> \o IdxToks[cas[3]] \o (IF cas[4] = 0 THEN <<>> ELSE IdxToks[cas[4]])
+ValueVector == LET r == ParseValue(PathToks, Sch, 128) IN
+  IF r.ok THEN [ev |-> "value", sch |-> 1, max |-> 128, ts |-> PathToks, ok |-> TRUE, ast |-> ValueAstJson(r.node),
+                runs |-> Strict([n \in 1..Len(Ctxs) |-> [ctx |-> n, out |-> "ok", res |-> EvalValue(r.node, Ctxs[n], Sch)]]), uses |-> <<>>]
+  ELSE [ev |-> "value", sch |-> 1, max |-> 128, ts |-> PathToks, ok |-> FALSE]
+ValueFreeOfEach == cas[1] = "index" => LET r == ParseValue(PathToks, Sch, 128) IN
+                     r.ok => (cas[3] # 3 /\ cas[4] # 3 /\ \A n \in 1..Len(Ctxs) :
+                                LET x == EvalValue(r.node, Ctxs[n], Sch) IN IF IsNil(x) THEN x.ty = r.ty ELSE TypeOf(x) = r.ty)
+Emit == PrintT(<<"REPLAY", ToJson(Vector)>>) /\ (cas[1] = "index" => PrintT(<<"REPLAY", ToJson(ValueVector)>>))
 ASSUME /\ PrintT(<<"REPLAY", ToJson([hdr |-> "scheme", sch |-> Sch])>>)
        /\ \A n \in 1..Len(Ctxs) : PrintT(<<"REPLAY", ToJson([hdr |-> "ctx", ctx |-> Ctxs[n]])>>)
 =============================================================================
